@@ -408,6 +408,12 @@ func explain(c *Ctx, i int) string {
 	os.WriteFile(file, []byte(q), 0o644)
 	out, _ := exec.Command("z3-new", "-T:60", file).CombinedOutput()
 	text := string(out)
+	if !strings.HasPrefix(text, "sat") && !strings.HasPrefix(text, "unsat") {
+		// second opinion (z3 4.8 finds models for array-heavy queries z3 5 gives up on)
+		if out2, _ := exec.Command("z3", "-T:60", file).CombinedOutput(); strings.HasPrefix(string(out2), "sat") {
+			text = string(out2)
+		}
+	}
 	vals := parseGetValue(text)
 	var b strings.Builder
 	b.WriteString(strings.SplitN(text, "\n", 2)[0] + "\n")
